@@ -125,8 +125,19 @@ def extract():
             fail("c04.dot.formula", str(e))
     u_args = ("alpha", "inputRx")
     w_args = ("alpha", "induced")
+    # how the random coefficient is drawn: an N-lane sharing straight from PRSS (one independent value per lane)
+    per_lane = False
+    m = expect("c04.acc.coefficient_per_lane", rel, t,
+               r"let random_constant = prss\s*\.generate(::<[^;]*?>)?\(record_id\)\s*((?:\.\w+\([^;]*\))*);")
+    if m:
+        per_lane = (m.group(1) is None) and (m.group(2) == "")
+        record("c04.acc.coefficient_per_lane", rel, t, m, per_lane)
+    expect("c04.acc.coefficient_type", rel, t,
+           r"fn compute_dot_product_contribution<const N: usize>\(\s*a: &Replicated<F::ExtendedField, N>,\s*b: &Replicated<F::ExtendedField, N>,\s*\) -> F::ExtendedField")
+    expect("c04.acc.signature", rel, t,
+           r"pub fn accumulate_macs<I: SharedRandomness, const N: usize>\(\s*&mut self,\s*prss: &I,\s*record_id: RecordId,\s*input: &MaliciousReplicated<F, N>,\s*\) where\s*F: ExtendableFieldSimd<N>,\s*Replicated<F::ExtendedField, N>: FromPrss,")
     m = expect("c04.acc.contributions", rel, t,
-               r"let induced_share = x\.induced\(\);\s*let random_constant = prss\.generate\(record_id\);\s*"
+               r"let induced_share = x\.induced\(\);\s*(?://[^\n]*\n\s*)*let random_constant = [^;]*;\s*"
                r"let u_contribution = Self::compute_dot_product_contribution\(([^,]*),([^)]*\)?)\);\s*"
                r"let w_contribution =\s*Self::compute_dot_product_contribution\(([^,]*),([^)]*)\);\s*"
                r"self\.inner\.u \+= u_contribution;\s*self\.inner\.w \+= w_contribution;")
@@ -324,6 +335,9 @@ def extract():
     L.append(f"def uRecordAdd : Nat := {adds['u_record']}")
     L.append(f"def wRecordAdd : Nat := {adds['w_record']}")
     L.append(f"def rShareRecordAdd : Nat := {adds['r_share_record']}")
+    L.append("/-- `accumulate_macs`: the random coefficient is an N-lane sharing drawn from PRSS — one independent value per lane")
+    L.append("(false: a single value spread over the lanes) -/")
+    L.append(f"def coefficientPerLane : Bool := {'true' if per_lane else 'false'}")
     L.append("/-- `propagate_u_and_w` sends the local value to the right neighbour (and receives from the left) -/")
     L.append(f"def propagateToRight : Bool := {'true' if prop_right else 'false'}")
     L.append("/-- `malicious_reveal`: the component sent to the left / to the right peer is the sender's right / left one -/")
